@@ -132,11 +132,31 @@ def run(ctx):
             ev.append(("T", dead))
             ev.append(("T", dead))
             return ev
+
+        def sched_silent(counts):
+            # the dying worker's marker is withheld AND the survivors stay alive but deliver nothing more (in a real run: blocked on
+            # the queue lock the killed worker held): the parent must still give up two polls after the death is observed
+            w = rng.randrange(len(counts))
+            cnt = [rng.randint(0, c - 1) for c in counts]
+            il = mpfake.interleavings(cnt, limit=1, rng=rng)[0]
+            ev = [("M", i) for i in il]
+            alive_all = [True] * len(counts)
+            dead = list(alive_all)
+            dead[w] = False
+            ev.insert(rng.randint(0, len(ev)), ("T", alive_all))
+            ev += [("T", dead)] * 5
+            return ev
+        silent = k >= 2 and rng.random() < 0.5
         mode_ = "solve" if rng.random() < 0.6 else (rng.choice(["min", "max"]), rng.randrange(len(prob.idx)))
-        impl, req, info = mp_case(prob, k, v, sched, mode_, rng)
+        impl, req, info = mp_case(prob, k, v, sched_silent if silent else sched, mode_, rng)
         reqs.append((req, impl, {"problem": prob.to_json(), "k": k, "v": v}))
         report.cov["evaluations"] += 1
         report.nontrivial(req)
+        report.count("scripted_death", "silent survivors" if silent else "survivors finish")
+        if silent and info["raised"] and info.get("scheduled", 0) - info.get("consumed", 0) < 3:
+            viol.append({"kind": "hang", "problem": prob.to_json(), "k": k, "v": v,
+                         "detail": "a worker is dead without its completion marker while the other workers stay alive and silent: the parent kept polling "
+                                   f"({info['consumed']} of {info['scheduled']} scripted events consumed) instead of giving up two polls after the death"})
         if not info["raised"]:
             viol.append({"kind": "hang", "problem": prob.to_json(), "detail": "a worker's completion marker never arrives and the worker is dead, but the parent did not raise"})
     answers = nv.Model().ask([q for q, _, _ in reqs])
